@@ -10,7 +10,7 @@ import (
 // time.Second.
 func (p *Path) now() *smt.T {
 	n, _ := p.freshName("clock")
-	t := smt.VarRange(n, 1<<33, 1<<34)
+	t := p.regVar(smt.VarRange(n, 1<<33, 1<<34))
 	p.addPC(smt.InRange(t, 1<<33, 1<<34))
 	if p.clock != nil {
 		p.addPC(smt.Le(p.clock, t))
